@@ -138,6 +138,28 @@ type TableSchema struct {
 	IsRoot  bool                     `json:"isRoot,omitempty"`
 }
 
+// UnmarshalJSON unmarshals a json-formatted table and checks its indexes: an
+// index is a non-empty set of columns of the table
+func (t *TableSchema) UnmarshalJSON(data []byte) error {
+	type plain TableSchema
+	var p plain
+	if err := json.Unmarshal(data, &p); err != nil {
+		return err
+	}
+	for _, index := range p.Indexes {
+		if len(index) == 0 {
+			return fmt.Errorf("an index has no column")
+		}
+		for _, column := range index {
+			if _, ok := p.Columns[column]; !ok {
+				return fmt.Errorf("index %v names %q, which is not a column of the table", index, column)
+			}
+		}
+	}
+	*t = TableSchema(p)
+	return nil
+}
+
 // Column returns the Column object for a specific column name
 func (t TableSchema) Column(columnName string) *ColumnSchema {
 	if columnName == "_uuid" {
